@@ -11,9 +11,12 @@ P: go2coq locks type-checks /repo/ruleguard (+ quasigo, typematch, textmatch, xt
    loadtime_objects_read_only: no write site (assignment, element write through a local alias, append, address-taking) of
    any run-reachable function of any of those packages stores into a struct type reachable from the loaded rule set
    (regenerated object graph: engine.ruleSet, engineState.env, captures of the filter closures); run_scan_closed.
+   natives: gen_natives (the table bound into the quasigo environment) = the table a loaded engine has; the structs behind
+   the natives are Load-time objects without fields of their own (natives_stateless: no table in front of FindType, cf.
+   RG.Locks.Front); no value containing a lock is copied (no_lock_copied).
 K: the cache model (RG.Locks.Cache.run_dep / lone) is executed by vm_compute on the same FindType scripts that the
    harness drives through engineState.FindType (hook), sequentially and from 2/4/16 goroutines; results and cache
-   contents are diffed.
+   contents are diffed. Contexts include in-memory packages whose dependencies resolve one path differently.
 O: the property's own oracle: every report list of every concurrent Run on ONE engine (N in {2,4,16}, cold and warm
    caches, states nil / sync.Pool / per goroutine) equals the sequential baseline of that file; the race detector
    (harness built with -race) must stay silent; a FindType answer must be the lone answer for that (package, name).
@@ -146,10 +149,13 @@ def run(c):
               "FQNs, mixed Load-time Type.Is/Implements + Do + comment rules, two merged rules files, 66 type-pattern rules of "
               "every typematch op incl. $*_ runs / repeated type and length variables / SinkType / expression lists, 24 rules with "
               "custom filters (locals, loops, user-function calls) + Do bodies + Contains sub-patterns + every textmatch matcher "
-              "kind + comment rules + At/Suggest, both files merged} x {4 small files, 4 'zoo' files applying every filter to 53 "
-              "values of different types / 23 texts in rotation} x N in "
-              "{2,4,16} goroutines on ONE engine x cold/warm caches x RunnerState nil/sync.Pool/own) compared with the sequential "
-              "baseline; a cache case = one FindType call of a sequential script or a concurrent burst compared with the Coq "
+              "kind + comment rules + At/Suggest, both files merged, two generated sets calling every native of the engine's table "
+              "from custom filters and Do handlers + filters on the names of an in-memory dependency} x {4 small files, 4 'zoo' "
+              "files applying every filter to 53 values of different types / 23 texts in rotation, 6 in-memory packages whose "
+              "dependencies resolve one import path to three different packages (no file / a stale file on disk)} x N in "
+              "{2,4,16} goroutines on ONE engine x first-touch/cold/warm x RunnerState nil/sync.Pool/own) compared with the sequential "
+              "baseline (in-memory packages: the lone Run on a fresh engine; lone Runs in two other processes in opposite orders); "
+              "a cache case = one FindType call of a sequential script or a concurrent burst compared with the Coq "
               "model; distinct non-trivial = distinct (rule set, N, phase, state modes, type cache grew?, package cache grew?) "
               "of rounds that delivered reports + distinct (context kind, name, outcome, hit/miss) of FindType calls")
     c.trusted += [
@@ -173,7 +179,9 @@ def run(c):
         "the dependencies of the checked package and the importer both resolve a name they yield the same type (same source; "
         "checked on the tables of every correspondence case and, for the implementation, through xtypes identity with the host's "
         "type: same_as_host)",
-        "harness/cmd/c08 (built with -race), hook ruleguard.VerifFindType / VerifTypeCache / VerifPkgCache, the Go race detector",
+        "harness/cmd/c08 (built with -race), hooks ruleguard.VerifFindType / VerifTypeCache / VerifPkgCache / VerifNativeNames, the Go race "
+        "detector; the generator of the natives rule sets (type-directed arguments from go/types on the dsl packages; a native it "
+        "cannot call is reported, the reviewed exceptions are in UNREACHABLE_NATIVES)",
     ]
     c.notes += [
         "real schedules are explored (race detector + comparison with the sequential baseline), not proved; the theorems are about "
@@ -262,7 +270,7 @@ def run(c):
         modfile = c.harness_modfile()
         c.harness_modfile = lambda: modfile
         # the budget bounds the EXTRA rounds; one round per (rule set, N) is always run (that alone takes ~25-35 s with -race)
-        fut_e = ex.submit(explore, hb, c.seed, 12 if not thorough else 420, "explore", thorough)
+        fut_e = ex.submit(explore, hb, c.seed, 8 if not thorough else 420, "explore", thorough)
         fut_f = ex.submit(findtype, hb, c.seed, 8 if not thorough else 60, 3 if not thorough else 30, "findtype")
         fut_l1 = ex.submit(lone, hb, "fwd", "lonefwd")
         fut_l2 = ex.submit(lone, hb, "rev", "lonerev")
